@@ -319,6 +319,71 @@ def check_tag_classes(ctx, tmpdir):
                         ctx.violation(key, what + " on the %d-byte file %s (%s)" % (len(data), fname, "; ".join(notes)[:120]), case)
 
 
+GEN_WAYS = ["str", "pathlike", "openfile", "rawfile", "bytesio", "minimal", "kw-filename-pathlib", "kw-fileobj"]
+
+
+def check_generated(ctx, tmpdir):
+    """generated container files - the layout generators of the IFF, DSF and ASF model ties: well-formed layouts of every
+    shape (tag chunk first/middle/last/absent, odd sizes, nested containers) and damaged ones (missing final pad byte,
+    wrong root size, bytes behind the root, pointers off) - loaded, saved after an edit and deleted through every kind
+    of file argument: same outcome, same tags, same bytes.  In-memory objects and real files differ in what truncate()
+    and writes past the end do; this is where code that leans on one of them shows"""
+    import random
+    import iff_tie, dsf_tie, asf_tie
+    from mutagen.id3 import ID3NoHeaderError
+    sources = []
+    for dname, (tagcls, _d) in sorted(iff_tie.tag_classes().items()):
+        strict = type("Strict" + dname, (_TagFile,), {"tagcls": tagcls, "nohdr": ID3NoHeaderError, "lenient": False})
+        lenient = type("Lenient" + dname, (_TagFile,), {"tagcls": tagcls, "nohdr": ID3NoHeaderError, "lenient": True})
+        sources.append((dname + "-id3-chunk", _PseudoFmt(dname, "id3", strict), _PseudoFmt(dname, "id3", lenient),
+                        (lambda rng, dname=dname: iff_tie.gen_file(rng, dname))))
+    byk = {f.kind: f for f in F.TAGGABLE}
+    if "DSF" in byk:
+        sources.append(("DSF", byk["DSF"], byk["DSF"], lambda rng: dsf_tie.gen_file(rng, "save")))
+    if "ASF" in byk:
+        sources.append(("ASF", byk["ASF"], byk["ASF"], lambda rng: asf_tie.gen_file(rng)))
+    for label, fstrict, flenient, gen in sources:
+        rng = random.Random(ctx.seed * 7919 + len(label) * 31 + ord(label[0]))
+        # every kind of the generator several times (the kinds are drawn with very unequal weights)
+        files = []; tries = 0; perkind = {}
+        per = ctx.budget(3, 12)
+        while tries < ctx.budget(600, 4000):
+            tries += 1
+            data, kind, lay = gen(rng)
+            if kind.startswith("sample") or len(data) > 300000 or perkind.get(kind, 0) >= (per * 3 if kind == "plain" else per):
+                continue
+            perkind[kind] = perkind.get(kind, 0) + 1
+            files.append(("%s#%d" % (kind, len(files)), data))
+        for fname, data in files:
+            for op in ("load", "save", "delete"):
+                fmt = flenient if op == "save" else fstrict
+                base = None
+                for way in GEN_WAYS:
+                    k, r = timed(lambda: perform(fmt, data, op, way, tmpdir, "t" + fmt.exts[0]), 30)
+                    case = {"class": label, "file": fname, "data_hex": data.hex() if len(data) < 6000 else None, "op": op, "way": way}
+                    ctx.case(key=("generated", label, fname, op, way), nontrivial=True, modelled=False, sample=None)
+                    ctx.hist["generated:%s:%s" % (label, fname.split("#")[0])] += 1
+                    if k != "ok":
+                        ctx.violation("%s:%s:%s:harness-%s" % (label, op, way, k), "did not finish: %r" % (r,), case); continue
+                    out, notes = r
+                    ctx.hist["generated-outcome:%s:%s:%s" % (label, op, out[0])] += 1
+                    if "closed" in notes:
+                        ctx.violation("closes-caller-object:%s:%s" % (label, op), "the caller's file object was closed (%s)" % way, case)
+                    if base is None:
+                        base = (way, out)
+                    elif out != base[1]:
+                        kindname = fname.split("#")[0]
+                        if out[0] != base[1][0]:
+                            what = "outcome %s via %s but %s via %s" % (out[0], way, base[1][0], base[0])
+                            key = "differs:%s:%s:%s-vs-%s:%s" % (label, op, out[0], base[1][0], kindname)
+                        elif out[2] != base[1][2]:
+                            what = "resulting bytes differ between %s and %s (%d vs %d bytes)" % (way, base[0], len(out[2]), len(base[1][2]))
+                            key = "differs:%s:%s:bytes:%s" % (label, op, kindname)
+                        else:
+                            what = "tags differ between %s and %s" % (way, base[0]); key = "differs:%s:%s:tags:%s" % (label, op, kindname)
+                        ctx.violation(key, what + " on the %d-byte generated file %s (%s)" % (len(data), fname, "; ".join(notes)[:120]), case)
+
+
 class FakeObj(object):
     def __init__(self, ident, readable, writable):
         self.ident = ident; self.readable = readable; self.writable = writable
@@ -427,6 +492,7 @@ def run(ctx):
         check_formats(ctx, tmpdir)
         check_file_detection(ctx, tmpdir)
         check_tag_classes(ctx, tmpdir)
+        check_generated(ctx, tmpdir)
     finally:
         shutil.rmtree(tmpdir, ignore_errors=True)
     check_openfile_logic(ctx)
